@@ -267,6 +267,15 @@ func (s *metadataFilterSearch) evaluateFilter(filter Filter) (*roaring.Bitmap, e
 		return s.index.queryNumeric(bsiIndex, filter)
 	}
 
+	// A numeric comparison on a field that no document carries matches nothing
+	// (the field is simply absent from this index; that is not a type error)
+	switch filter.Operator {
+	case OpGreaterThan, OpGreaterThanOrEqual, OpLessThan, OpLessThanOrEqual, OpRange, OpNotRange:
+		if s.index.getExistenceBitmap(filter.Field).IsEmpty() {
+			return roaring.New(), nil
+		}
+	}
+
 	// Categorical field
 	return s.index.queryCategorical(filter)
 }
